@@ -1,4 +1,4 @@
-/* C14 harnesses: function-node concurrency accounting inside the aggregator handler, and the single open reservation of reservable buffers */
+/* C14 harnesses: function-node concurrency accounting inside the aggregator handler (FIB); single open reservation (RIB); buffer_node / queue_node handler, forwarding invariant and task hand-off (BN, BNAPI); successor caches (SC); predecessor caches (PC); graph task reference pairing (WT); reference_vertex rely/guarantee (RV) */
 #include "verif.h"
 #include <stdlib.h>
 #ifdef FIB
@@ -87,6 +87,499 @@ void h_consume_release(void) {
         rib_release_front(&b);
         OBLIGATION(!b.my_reserved && b.my_head == h0 && item_buffer_element(&b, h0)->state == has_item && item_buffer_element(&b, h0)->item == it, "C14.reserve: release puts the same item back, unreserved");
     }
+    VACUITY_END();
+}
+#endif
+#ifdef BN
+/* buffer_node / queue_node: ONE arbitrary operation through the aggregator handler in an arbitrary invariant state (inductive step of the batch loop).
+   The object is the flattened C view item_buffer + reservable_item_buffer::my_reserved + buffer_node::forwarder_busy; every item_buffer function is the
+   extracted one (grow_my_array under the contract that C15 job buffer.grow_my_array enforces - c15_prelude.inc is that text). */
+#include "c15_prelude.inc"
+typedef struct graph_task { int d; } graph_task;
+typedef struct graph { int d; } graph;
+static graph_task T_enq, T_real; static graph G;
+#define SUCCESSFULLY_ENQUEUED (&T_enq)
+enum { reg_succ, rem_succ, req_item, res_item, rel_res, con_res, put_item, try_fwd_task };
+typedef struct buffer_operation { char type; item_type *elem; graph_task *ltask; void *r; int status; struct buffer_operation *next; } buffer_operation;
+typedef buffer_operation queue_operation;
+struct task_pair { graph_task *first, *second; };
+struct item_buffer;
+/* ---- ghost state ---- */
+size_t g_nsucc;            /* my_successors.size(): push-mode successors */
+bool g_active;             /* is_graph_active */
+bool g_refused;            /* every registered successor has rejected the currently deliverable item and refused to be switched to pull mode */
+unsigned g_status_sets; size_t g_made, g_spawned, g_accepts, g_newfwd, g_reg, g_rem, g_ns0; bool g_ref0, g_offered;
+size_t g_h0, g_t0, g_cap0; /* snapshot of the buffer window before the operation */
+bool g_gh_canon, g_gh_in0; item_type g_gh_item0; size_t g_gh_acc;   /* the arbitrary item GH: was buffered, its value, how often a successor accepted it */
+#define SET_STATUS(op, st) do { __CPROVER_assert((op)->status == WAIT, "C14.buffer: an operation gets exactly one final status"); (op)->status = (st); g_status_sets++; } while (0)
+static graph *STUB_graph(void) { return &G; }
+static bool STUB_is_graph_active(void) { return g_active; }
+static graph_task *STUB_new_forward_task(struct item_buffer *self) { g_newfwd++; g_made++; return &T_real; }
+static struct task_pair STUB_order_tasks(graph_task *l, graph_task *r) { struct task_pair p; if (nondet_bool()) { p.first = l; p.second = r; } else { p.first = r; p.second = l; } return p; }
+static void STUB_spawn(graph_task *t) { OBLIGATION(t == &T_real, "C14.buffer: only real tasks are spawned (never NULL or the SUCCESSFULLY_ENQUEUED sentinel)"); g_spawned++; }
+static size_t STUB_succ_size(struct item_buffer *self) { return g_nsucc; }
+static void STUB_succ_register(struct item_buffer *self, void *r) { g_nsucc++; g_reg++; }
+static void STUB_succ_remove(struct item_buffer *self, void *r) { if (g_nsucc > 0 && nondet_bool()) g_nsucc--; g_rem++; }
+static graph_task *STUB_succ_try_put_task(struct item_buffer *self, const item_type *it);
+#ifdef DERIVED_QUEUE
+#define DERIVED_is_item_valid qn_is_item_valid
+#define DERIVED_try_put_and_add_task qn_try_put_and_add_task
+#define VIRT_internal_forward_task qn_internal_forward_task
+#define VIRT_internal_pop qn_internal_pop
+#define VIRT_internal_reserve qn_internal_reserve
+#define VIRT_internal_consume qn_internal_consume
+#else
+#define DERIVED_is_item_valid bn_is_item_valid
+#define DERIVED_try_put_and_add_task bn_try_put_and_add_task
+#define VIRT_internal_forward_task bn_internal_forward_task
+#define VIRT_internal_pop bn_internal_pop
+#define VIRT_internal_reserve bn_internal_reserve
+#define VIRT_internal_consume bn_internal_consume
+#endif
+#define DERIVED_order bn_order
+#define VIRT_internal_reg_succ bn_internal_reg_succ
+#define VIRT_internal_rem_succ bn_internal_rem_succ
+#define VIRT_internal_release bn_internal_release
+#define VIRT_internal_push bn_internal_push
+#define IN_WIN(b, j) ((j) >= (b)->my_head && (j) < (b)->my_tail)
+/* representation invariant of buffer_node / queue_node at an arbitrary index j: every index of [head,tail) holds an item, the front one is marked reserved
+   iff a reservation is open, every other slot of the window is empty */
+#define RI(b, j) ((!(b)->my_reserved || (b)->my_head < (b)->my_tail) && \
+    (IN_WIN(b, j) ? SLOTN(b, j).state == (((j) == (b)->my_head && (b)->my_reserved) ? reserved_item : has_item) \
+                  : (!((j) - (b)->my_head < (b)->my_array_size) || SLOTN(b, j).state == no_item)))
+/* IB_SHAPE without the size bound MAXCAP, which is a bound of the proof (grow_my_array contract), not of the code */
+#define SHAPE_POST(b) (POW2((b)->my_array_size) && (b)->my_array_size >= 4 && (b)->my_head <= (b)->my_tail && (b)->my_tail - (b)->my_head <= (b)->my_array_size)
+#define TASK3(t) ((t) == NULL || (t) == &T_enq || (t) == &T_real)
+#define LOOP_bnho_1
+/* forwarding loop: counter counts down; items leave only at the end that is offered; item GH is either still in place and was never accepted, or it is gone
+   and was accepted exactly once; the tasks made are spawned or held in last_task; before the first offer nothing has changed; after an offer, as long as
+   nothing was accepted, no successor is left or every remaining successor has refused */
+#define LOOP_bnfwd_1 __CPROVER_assigns(counter, last_task, self->my_head, self->my_tail, __CPROVER_object_whole(self->my_array), g_nsucc, g_refused, g_made, g_spawned, g_offered, g_accepts, g_gh_acc) \
+  __CPROVER_loop_invariant(g_h0 <= self->my_head && self->my_head <= self->my_tail && self->my_tail <= g_t0 \
+     && (g_t0 - self->my_tail) + (self->my_head - g_h0) == g_accepts && TASK3(last_task) && ((last_task != NULL) == (g_accepts > 0)) \
+     && g_made == g_spawned + (last_task == &T_real ? 1 : 0) && RI(self, GH) \
+     && (g_gh_in0 ? (IN_WIN(self, GH) ? (SLOTN(self, GH).item == g_gh_item0 && g_gh_acc == 0) : g_gh_acc == 1) : g_gh_acc == 0) \
+     && (!g_offered ? (g_nsucc == g_ns0 && g_refused == g_ref0 && g_accepts == 0 && counter == __CPROVER_loop_entry(counter)) : (g_accepts > 0 || g_nsucc == 0 || g_refused))) \
+  __CPROVER_decreases(counter)
+#include "item_buffer_bn.inc"
+#include "reservable.inc"
+#include "buffer_node.inc"
+/* my_successors.try_put_task (round_robin_cache): the item is offered to the successors in turn until one accepts; a successor that rejects is dropped from
+   the cache if it accepts being switched to pull mode.  Returns the acceptor's task (a real task or SUCCESSFULLY_ENQUEUED) or NULL when all rejected. */
+static graph_task *STUB_succ_try_put_task(struct item_buffer *self, const item_type *it) {
+    g_offered = true;
+    bool is_gh = g_gh_canon && it == &SLOTN(self, GH).item;
+    if (is_gh) {
+        OBLIGATION(IN_WIN(self, GH) && SLOTN(self, GH).state == has_item, "C14.buffer: what is offered to a successor is a buffered item that is not under reservation");
+        OBLIGATION(g_gh_acc == 0, "C14.buffer: an item that a successor has accepted is never offered again");
+    }
+    bool acc = nondet_bool(); size_t n1 = nondet_size_t();
+    __CPROVER_assume(n1 <= g_nsucc && (!acc || n1 >= 1));
+    g_nsucc = n1;
+    if (acc) { g_accepts++; g_refused = false; if (is_gh) g_gh_acc++; if (nondet_bool()) return SUCCESSFULLY_ENQUEUED; g_made++; return &T_real; }
+    g_refused = n1 > 0;
+    return NULL;
+}
+#define DELIVERABLE(b) (DERIVED_is_item_valid(b) && !(b)->my_reserved && g_nsucc > 0 && !g_refused && g_active)
+int IN_type;
+static void bn_one_operation(int type, bool f10_domain) {
+    struct item_buffer *b = malloc(sizeof(*b)); __CPROVER_assume(b != NULL);
+    b->my_array_size = nondet_size_t(); b->my_head = nondet_size_t(); b->my_tail = nondet_size_t(); b->my_reserved = nondet_bool(); b->forwarder_busy = nondet_bool();
+    __CPROVER_assume(IB_SHAPE(b));
+    b->my_array = malloc(b->my_array_size * sizeof(aligned_space_item)); __CPROVER_assume(b->my_array != NULL);
+    size_t h0 = g_h0 = b->my_head, t0 = g_t0 = b->my_tail, cap0 = g_cap0 = b->my_array_size;
+    GH = nondet_size_t(); GH2 = t0;
+    __CPROVER_assume(RI(b, GH) && RI(b, h0) && RI(b, t0) && RI(b, t0 - 1));               /* instances of the (universal) representation invariant */
+    g_nsucc = nondet_size_t(); __CPROVER_assume(g_nsucc < ((size_t)1 << 32));
+    g_active = nondet_bool(); g_refused = nondet_bool();
+    g_status_sets = 0; g_offered = false; g_made = g_spawned = g_accepts = g_newfwd = g_reg = g_rem = g_gh_acc = 0;
+    bool in0 = g_gh_in0 = IN_WIN(b, GH); g_gh_canon = GH >= h0 && GH - h0 < cap0;
+    item_type x0 = g_gh_item0 = SLOTN(b, GH).item; int st0 = SLOTN(b, GH).state;
+    bool res0 = b->my_reserved, fb0 = b->forwarder_busy;
+    item_type v = nondet_int(), v0 = v; int dummy_succ;
+    buffer_operation op; op.type = (char)type; op.elem = NULL; op.ltask = NULL; op.r = NULL; op.status = WAIT; op.next = NULL;
+    IN_type = type;
+    /* what the callers guarantee for each kind of operation */
+    if (type == reg_succ || type == rem_succ) op.r = &dummy_succ;
+    if (type == req_item || type == res_item || type == put_item) op.elem = &v;
+    if (type == rel_res || type == con_res) __CPROVER_assume(res0);                       /* only the holder of the reservation releases / consumes */
+    if (type == try_fwd_task) __CPROVER_assume(fb0);                                      /* issued by the forward task only, which exists only while forwarder_busy */
+    if (type == put_item) __CPROVER_assume(t0 - h0 < MAXCAP && t0 + 1 < ((size_t)1 << 62));                             /* stated size bound of the grow_my_array contract */
+    /* ops that can make forwarding possible again start a new round: nobody has refused the (new) situation yet */
+    if (type == reg_succ || type == put_item || type == rel_res || type == con_res) g_refused = false;
+#ifndef DERIVED_QUEUE
+    { bool sole_reserved = type == req_item && res0 && t0 - h0 == 1; __CPROVER_assume(f10_domain ? sole_reserved : !sole_reserved); }
+#endif
+    g_ns0 = g_nsucc; g_ref0 = g_refused;
+    /* the invariant under proof, assumed before the operation */
+    __CPROVER_assume(!DELIVERABLE(b) || fb0);
+
+    bn_handle_operations(b, &op);
+
+    size_t h1 = b->my_head, t1 = b->my_tail; bool in1 = IN_WIN(b, GH); bool fb1 = b->forwarder_busy;
+    OBLIGATION(g_status_sets == 1 && (op.status == SUCCEEDED || op.status == FAILED), "C14.buffer: the operation gets exactly one status (SUCCEEDED or FAILED)");
+    if (f10_domain) {   /* try_get while the only item is reserved: this half of the domain carries the one obligation that finding F10 violates (everything else there is a consequence) */
+        OBLIGATION(!(in0 && !in1) || st0 == has_item, "C14.buffer: an item under reservation is not handed to anyone else");
+        return;
+    }
+    OBLIGATION(SHAPE_POST(b) && RI(b, GH), "C14.buffer: the buffer's representation invariant is re-established (at an arbitrary index)");
+    OBLIGATION(!DELIVERABLE(b) || fb1, "C14.buffer: when the handler returns with a deliverable item (buffered, front not reserved, a push-mode successor that has not refused it, graph active) a forward task is outstanding (forwarder_busy)");
+    OBLIGATION(TASK3(op.ltask) && g_made == g_spawned + (op.ltask == &T_real ? 1 : 0), "C14.buffer: every task produced inside the handler (by an accepting successor or the new forwarder) is spawned or handed back in the operation record - none dropped, none twice");
+    OBLIGATION(!(fb1 && !fb0) || g_newfwd == 1, "C14.buffer: forwarder_busy is set only together with the creation of a forward task");
+    OBLIGATION(g_newfwd <= 1 && (g_newfwd == 0 || fb1), "C14.buffer: a forward task is created at most once and leaves forwarder_busy set");
+    if (type != try_fwd_task) {
+        OBLIGATION(!fb0 || fb1, "C14.buffer: forwarder_busy is cleared only by the forward task");
+        OBLIGATION(!g_offered && op.ltask != SUCCESSFULLY_ENQUEUED, "C14.buffer: only the forward task offers items to successors");
+    } else {
+        OBLIGATION((op.status == SUCCEEDED) == fb1, "C14.buffer: the forward task goes on iff it leaves forwarder_busy set (it clears the flag exactly when it stops)");
+        OBLIGATION((t0 - h0) - (t1 - h1) == g_accepts && t1 - h1 <= t0 - h0, "C14.buffer: exactly the items a successor accepted leave the buffer");
+    }
+    /* conservation, at the arbitrary item GH */
+    if (in0) {
+        if (in1) {
+            OBLIGATION(SLOTN(b, GH).item == x0 && SLOTN(b, GH).state != no_item, "C14.buffer: an item that stays buffered keeps its place and value");
+            OBLIGATION(g_gh_acc == 0, "C14.buffer: an item that a successor accepted does not stay in the buffer (no duplicate)");
+        } else {
+            OBLIGATION(type == try_fwd_task || type == req_item || type == con_res, "C14.buffer: an item leaves the buffer only by forwarding, try_get or consumption of its reservation");
+            OBLIGATION(g_gh_acc == (type == try_fwd_task ? 1 : 0), "C14.buffer: a forwarded item was accepted by exactly one successor");
+            if (type == req_item) {
+                OBLIGATION(op.status == SUCCEEDED && v == x0, "C14.buffer: the item removed by try_get is the one handed to the requester");
+                OBLIGATION(st0 == has_item, "C14.buffer: an item under reservation is not handed to anyone else");
+            }
+            if (type == con_res) OBLIGATION(GH == h0 && st0 == reserved_item, "C14.buffer: consume removes exactly the reserved item");
+        }
+    } else {
+        OBLIGATION(g_gh_acc == 0, "C14.buffer: nothing but buffered items is forwarded");
+        if (g_gh_canon && in1) OBLIGATION(type == put_item && GH == t0 && SLOTN(b, GH).item == v0, "C14.buffer: the only new item is the one that was put");
+    }
+    /* count level */
+    if (type == reg_succ || type == rem_succ || type == res_item || type == rel_res) OBLIGATION(h1 == h0 && t1 == t0, "C14.buffer: registration, reservation and release do not move items");
+    if (type == reg_succ) OBLIGATION(g_reg == 1 && op.status == SUCCEEDED, "C14.buffer: the successor is registered");
+    if (type == rem_succ) OBLIGATION(g_rem == 1 && op.status == SUCCEEDED, "C14.buffer: the successor is removed");
+    if (type == req_item) OBLIGATION((t0 - h0) - (t1 - h1) == (op.status == SUCCEEDED ? 1 : 0) && t1 - h1 <= t0 - h0, "C14.buffer: a successful try_get removes exactly one item, a failed one none");
+    if (type == res_item) OBLIGATION((op.status == SUCCEEDED) ? (!res0 && b->my_reserved && v == SLOTN(b, h0).item) : b->my_reserved == res0, "C14.buffer: a reservation is granted only when none is open, and hands out the front item");
+    if (type == rel_res) OBLIGATION(!b->my_reserved && op.status == SUCCEEDED, "C14.buffer: release closes the reservation and keeps the item");
+    if (type == con_res) OBLIGATION(!b->my_reserved && h1 == h0 + 1 && t1 == t0 && op.status == SUCCEEDED, "C14.buffer: consume closes the reservation and removes the reserved item only");
+    if (type == put_item) OBLIGATION(op.status != SUCCEEDED || (h1 == h0 && t1 == t0 + 1 && SLOTN(b, t0).state == has_item && SLOTN(b, t0).item == v0), "C14.buffer: an accepted put stores the message in the buffer");
+}
+#ifdef BNAPI
+/* the entry points around the aggregator.  AGG_execute stands for "the handler processed this record (possibly in a batch run by another thread)": per the
+   handler jobs above the record gets exactly one status and its ltask is NULL or a real task (for the forward task's own record also SUCCESSFULLY_ENQUEUED). */
+#define OP_INIT(op, e, t) do { (op)->type = (char)(t); (op)->elem = (item_type *)(e); (op)->ltask = NULL; (op)->r = NULL; (op)->status = WAIT; (op)->next = NULL; } while (0)
+size_t g_execs; bool g_exec_any; int g_exec_type; void *g_exec_r; item_type *g_exec_elem; int g_exec_status; size_t g_rempred;
+static void AGG_execute(struct item_buffer *self, buffer_operation *op) {
+    OBLIGATION(op->status == WAIT && op->ltask == NULL, "C14.buffer: a record handed to the aggregator is fresh (status WAIT, no task)");
+    g_execs++; g_exec_any = true; g_exec_type = op->type; g_exec_r = op->r; g_exec_elem = op->elem;
+    op->status = nondet_bool() ? SUCCEEDED : FAILED; g_exec_status = op->status;
+    int k = nondet_int();
+    if (k == 1) { op->ltask = &T_real; g_made++; } else if (k == 2 && op->type == try_fwd_task) op->ltask = SUCCESSFULLY_ENQUEUED; else op->ltask = NULL;
+}
+static void STUB_remove_predecessor(struct item_buffer *self, void *r) { g_rempred++; }
+#define LOOP_bnft_1 __CPROVER_assigns(op_data.status, op_data.ltask, last_task, g_made, g_spawned, g_execs, g_exec_any, g_exec_type, g_exec_r, g_exec_elem, g_exec_status) \
+  __CPROVER_loop_invariant(TASK3(last_task) && g_made == g_spawned + (last_task == &T_real ? 1 : 0) && op_data.type == try_fwd_task && (!g_exec_any || g_exec_status == SUCCEEDED))
+#include "buffer_node_api.inc"
+int IN_api;
+void h_bn_api(void) {
+    struct item_buffer b; int dummy; item_type v = nondet_int(); g_made = g_spawned = g_execs = g_rempred = 0; g_exec_r = NULL; g_exec_elem = NULL; g_exec_type = -1;
+    int api = IN_api = nondet_int(); __CPROVER_assume(api >= 0 && api <= 6);
+    bool ret = true; graph_task *rt = NULL; int want;
+    switch (api) {
+    case 0: ret = bn_register_successor(&b, &dummy); want = reg_succ; break;
+    case 1: ret = bn_remove_successor(&b, &dummy); want = rem_succ; break;
+    case 2: ret = bn_try_get(&b, &v); want = req_item; break;
+    case 3: ret = bn_try_reserve(&b, &v); want = res_item; break;
+    case 4: ret = bn_try_release(&b); want = rel_res; break;
+    case 5: ret = bn_try_consume(&b); want = con_res; break;
+    default: rt = bn_try_put_task_impl(&b, &v); want = put_item; break;
+    }
+    OBLIGATION(g_execs == 1 && g_exec_type == want, "C14.buffer: each entry point issues exactly one operation of its own kind");
+    OBLIGATION((api == 0 || api == 1) ? g_exec_r == &dummy : (api == 2 || api == 3 || api == 6) ? g_exec_elem == &v : true, "C14.buffer: the operation carries the caller's successor / item");
+    OBLIGATION(TASK3(rt) && g_made == g_spawned + (rt == &T_real ? 1 : 0), "C14.buffer: the task the handler left in the operation record (a forwarder) is spawned or returned to the caller - never dropped, never both");
+    if (api == 2 || api == 3) OBLIGATION(ret == (g_exec_status == SUCCEEDED), "C14.buffer: try_get / try_reserve report success iff the operation succeeded");
+    else if (api != 6) OBLIGATION(ret, "C14.buffer: the call reports completion");
+    if (api == 6) OBLIGATION((rt != NULL) == (g_exec_status == SUCCEEDED), "C14.buffer: try_put_task reports the message as accepted iff the node stored it (a message that was not stored is reported as rejected)");
+    VACUITY_END();
+}
+void h_bn_forward_task(void) {
+    struct item_buffer b; g_made = g_spawned = g_execs = 0; g_exec_any = false; g_exec_status = WAIT;
+    graph_task *rt = bn_forward_task(&b);
+    OBLIGATION(g_exec_any && g_exec_type == try_fwd_task && g_exec_status == FAILED, "C14.buffer: the forward task keeps issuing try_fwd_task operations until one fails (which is when the handler cleared forwarder_busy)");
+    OBLIGATION(TASK3(rt) && g_made == g_spawned + (rt == &T_real ? 1 : 0), "C14.buffer: every task obtained while forwarding is spawned or returned - none dropped, none twice");
+    VACUITY_END();
+}
+#endif
+#ifndef OPK
+#define OPK 0
+#endif
+void h_bn_op(void) { bn_one_operation(OPK, false); VACUITY_END(); }
+void h_bn_pop_reserved(void) { bn_one_operation(req_item, true); VACUITY_END(); }
+#endif
+#ifdef SC
+/* successor caches: broadcast_cache / round_robin_cache::try_put_task_impl.  The std::list of successors is viewed positionally: the n successors present on
+   entry are 0..n-1 in list order, an iterator is a position, erase(i) yields i+1.  All facts are about ONE arbitrary successor g_k (ghost index). */
+typedef int item_type;
+typedef struct graph_task { int d; } graph_task;
+typedef struct graph { int d; } graph;
+static graph_task T_enq, T_real; static graph G;
+#define SUCCESSFULLY_ENQUEUED (&T_enq)
+struct task_pair { graph_task *first, *second; };
+struct cache { int d; };
+size_t g_n, g_k;                                   /* number of successors in the list on entry; the arbitrary successor */
+size_t g_off_k, g_acc_k, g_rp_k; bool g_rp_res_k, g_erased_k;   /* how often g_k was offered the message / accepted it / was asked to become a pull edge, the answer, erased from the list */
+size_t g_accepts, g_first_acc, g_made, g_spawned; const item_type *g_msg;
+#define TASK3(t) ((t) == NULL || (t) == &T_enq || (t) == &T_real)
+static graph *STUB_graph(void) { return &G; }
+static struct task_pair STUB_order_tasks(graph_task *l, graph_task *r) { struct task_pair p; if (nondet_bool()) { p.first = l; p.second = r; } else { p.first = r; p.second = l; } return p; }
+static void STUB_spawn(graph_task *t) { OBLIGATION(t == &T_real, "C14.cache: only real tasks are spawned (never NULL or the SUCCESSFULLY_ENQUEUED sentinel)"); g_spawned++; }
+static size_t LIST_begin(struct cache *self) { return 0; }
+static size_t LIST_end(struct cache *self) { return g_n; }
+static graph_task *SUCC_try_put_task(struct cache *self, size_t i, const item_type *t) {
+    OBLIGATION(i < g_n, "C14.cache: the iterator that is dereferenced points into the list");
+    OBLIGATION(t == g_msg, "C14.cache: what is offered is the message that was put");
+    if (i == g_k) { OBLIGATION(!g_erased_k, "C14.cache: a successor that was dropped from the list is not offered the message"); g_off_k++; }
+    if (nondet_bool()) return NULL;
+    if (g_accepts == 0) g_first_acc = i;
+    g_accepts++; if (i == g_k) g_acc_k++;
+    if (nondet_bool()) return SUCCESSFULLY_ENQUEUED;
+    g_made++; return &T_real;
+}
+static bool SUCC_register_predecessor(struct cache *self, size_t i) {
+    OBLIGATION(i < g_n, "C14.cache: the iterator that is dereferenced points into the list");
+    bool r = nondet_bool();
+    if (i == g_k) { OBLIGATION(g_off_k >= 1 && g_acc_k == 0, "C14.cache: an edge is switched to pull mode only after its successor rejected the message"); g_rp_k++; g_rp_res_k = r; }
+    return r;
+}
+static size_t LIST_erase(struct cache *self, size_t i) {
+    OBLIGATION(i < g_n, "C14.cache: the iterator that is erased points into the list");
+    if (i == g_k) { OBLIGATION(!g_erased_k, "C14.cache: a successor is erased at most once"); g_erased_k = true; }
+    return i + 1;
+}
+/* successor g_k after it has been passed: offered once; accepted -> stays a push successor, untouched; rejected -> asked once to become a pull edge, dropped iff it agreed */
+#define K_DONE (g_off_k == 1 && g_acc_k <= 1 && (g_acc_k == 1 ? (g_rp_k == 0 && !g_erased_k) : (g_rp_k == 1 && g_erased_k == g_rp_res_k)))
+#define K_REJECTED (g_off_k == 1 && g_acc_k == 0 && g_rp_k == 1 && g_erased_k == g_rp_res_k)
+#define K_UNTOUCHED (g_off_k == 0 && g_acc_k == 0 && g_rp_k == 0 && !g_erased_k)
+#define LOOP_bcput_1 __CPROVER_assigns(i, last_task, g_off_k, g_acc_k, g_rp_k, g_rp_res_k, g_erased_k, g_accepts, g_first_acc, g_made, g_spawned) \
+  __CPROVER_loop_invariant(i <= g_n && g_accepts <= i && TASK3(last_task) && ((last_task != NULL) == (g_accepts > 0)) && g_made == g_spawned + (last_task == &T_real ? 1 : 0) \
+     && (g_k < i ? K_DONE : K_UNTOUCHED)) __CPROVER_decreases(g_n - i)
+#define LOOP_rrput_1 __CPROVER_assigns(i, g_off_k, g_acc_k, g_rp_k, g_rp_res_k, g_erased_k, g_accepts, g_first_acc, g_made, g_spawned) \
+  __CPROVER_loop_invariant(i <= g_n && g_accepts == 0 && g_made == 0 && g_spawned == 0 && (g_k < i ? K_REJECTED : K_UNTOUCHED)) __CPROVER_decreases(g_n - i)
+#include "succ_cache.inc"
+static void sc_init(void) {
+    g_n = nondet_size_t(); g_k = nondet_size_t(); __CPROVER_assume(g_n <= ((size_t)1 << 16) && g_k < g_n);
+    g_off_k = g_acc_k = g_rp_k = 0; g_rp_res_k = false; g_erased_k = false; g_accepts = g_made = g_spawned = 0; g_first_acc = 0;
+}
+void h_bc_put(void) {
+    struct cache c; item_type msg = nondet_int(); g_msg = &msg; sc_init();
+    graph_task *ret = bc_try_put_task_impl(&c, &msg);
+    OBLIGATION(g_off_k == 1, "C14.cache: a broadcast offers the message exactly once to every successor");
+    OBLIGATION(g_acc_k == 1 ? (g_rp_k == 0 && !g_erased_k) : (g_rp_k == 1 && g_erased_k == g_rp_res_k), "C14.cache: a successor that accepted stays a push successor; one that rejected is asked exactly once to become a pull edge and is dropped from the list iff it agreed");
+    OBLIGATION(TASK3(ret) && (ret != NULL) == (g_accepts > 0) && g_made == g_spawned + (ret == &T_real ? 1 : 0), "C14.cache: every task returned by an accepting successor is spawned or returned - none dropped, none twice; NULL is returned only when every successor rejected");
+    VACUITY_END();
+}
+void h_rr_put(void) {
+    struct cache c; item_type msg = nondet_int(); g_msg = &msg; sc_init();
+    graph_task *ret = rr_try_put_task_impl(&c, &msg);
+    OBLIGATION(g_accepts <= 1 && (ret != NULL) == (g_accepts == 1), "C14.cache: the message is handed to at most one successor, and the call reports acceptance iff one took it");
+    OBLIGATION(g_spawned == 0 && (ret == &T_real ? g_made == 1 : (g_made == 0 && (ret == NULL || ret == SUCCESSFULLY_ENQUEUED))), "C14.cache: the acceptor's task is what is returned");
+    if (ret != NULL) {
+        OBLIGATION(g_first_acc < g_n, "C14.cache: the acceptor is a successor of the list");
+        OBLIGATION(g_k < g_first_acc ? K_REJECTED : g_k == g_first_acc ? (g_off_k == 1 && g_acc_k == 1 && g_rp_k == 0 && !g_erased_k) : K_UNTOUCHED,
+                   "C14.cache: successors are tried in turn until one accepts: everyone before the acceptor was offered once, rejected and was switched to pull mode iff it agreed; the acceptor stays; nobody after it is touched");
+    } else
+        OBLIGATION(K_REJECTED, "C14.cache: a put is reported as rejected only after every successor was offered the message once and rejected it");
+    VACUITY_END();
+}
+#endif
+#ifdef PC
+/* pull side: predecessor_cache::get_item_impl, reservable_predecessor_cache::try_reserve_impl / try_release / try_consume.  The std::queue of predecessors
+   is viewed positionally: the n predecessors queued on entry are 0..n-1 in queue order (handles &g_preds[i]); internal_pop takes position g_qh; add()
+   appends behind.  All facts are about ONE arbitrary predecessor g_k.  One call in isolation (no concurrent add/remove on the same cache). */
+typedef int item_type;
+typedef struct pred { int d; } predecessor_type;
+struct pcache { predecessor_type *reserved_src; };
+#define ATOMIC_LOAD(x) (x)
+#define ATOMIC_STORE(x, v) ((x) = (v))
+predecessor_type *g_preds; size_t g_n, g_k, g_qh, g_adds; predecessor_type *g_last_added;
+size_t g_pop_k, g_ask_k, g_gave_k, g_flip_k, g_add_k, g_succ, g_giver; item_type g_given; size_t g_rel_calls, g_con_calls; predecessor_type *g_rel_on;
+#define IDX(p) ((size_t)((p) - g_preds))
+static bool Q_empty(struct pcache *self) { return g_qh == g_n + g_adds; }
+static predecessor_type *Q_pop(struct pcache *self) {
+    OBLIGATION(g_qh < g_n + g_adds, "C14.pull: nothing is popped from an empty predecessor queue");
+    size_t pos = g_qh++; if (pos >= g_n) return g_last_added;
+    if (pos == g_k) g_pop_k++;
+    return &g_preds[pos];
+}
+static void Q_add(struct pcache *self, predecessor_type *p) { OBLIGATION(p != NULL && IDX(p) < g_n, "C14.pull: what is put back is a predecessor"); g_adds++; g_last_added = p; if (IDX(p) == g_k) g_add_k++; }
+static bool pred_ask(predecessor_type *p, item_type *v) {
+    OBLIGATION(p != NULL && IDX(p) < g_n, "C14.pull: only predecessors taken from the cache are asked");
+    if (IDX(p) == g_k) g_ask_k++;
+    if (nondet_bool()) return false;
+    g_given = nondet_int(); *v = g_given; g_succ++; g_giver = IDX(p); if (IDX(p) == g_k) g_gave_k++;
+    return true;
+}
+static bool PRED_try_get(struct pcache *self, predecessor_type *p, item_type *v) { return pred_ask(p, v); }
+static bool PRED_try_reserve(struct pcache *self, predecessor_type *p, item_type *v) {
+    OBLIGATION(self->reserved_src == p, "C14.pull: while a predecessor is asked for a reservation it is recorded as the reserved source (no second reservation can start)");
+    return pred_ask(p, v);
+}
+static void PRED_register_successor(struct pcache *self, predecessor_type *p) {
+    OBLIGATION(p != NULL && IDX(p) < g_n, "C14.pull: the edge that is flipped belongs to a predecessor taken from the cache");
+    if (IDX(p) == g_k) { OBLIGATION(g_ask_k >= 1 && g_gave_k == 0, "C14.pull: an edge is flipped back to push mode only after its predecessor had nothing"); g_flip_k++; }
+}
+static void PRED_try_release(struct pcache *self, predecessor_type *p) { g_rel_calls++; g_rel_on = p; }
+static void PRED_try_consume(struct pcache *self, predecessor_type *p) { g_con_calls++; g_rel_on = p; }
+#define K_FAILED (g_pop_k == 1 && g_ask_k == 1 && g_gave_k == 0 && g_flip_k == 1 && g_add_k == 0)
+#define K_GAVE (g_pop_k == 1 && g_ask_k == 1 && g_gave_k == 1 && g_flip_k == 0 && g_add_k == 1)
+#define K_UNTOUCHED (g_pop_k == 0 && g_ask_k == 0 && g_gave_k == 0 && g_flip_k == 0 && g_add_k == 0)
+predecessor_type *g_rs0;
+#define LOOP_pcget_1 __CPROVER_assigns(successful_get, *v, g_qh, g_adds, g_last_added, g_pop_k, g_ask_k, g_gave_k, g_flip_k, g_add_k, g_succ, g_giver, g_given) \
+  __CPROVER_loop_invariant(g_qh <= g_n && g_adds == 0 && g_succ == 0 && successful_get == false && (g_k < g_qh ? K_FAILED : K_UNTOUCHED)) __CPROVER_decreases(g_n - g_qh)
+#define LOOP_rcres_1 __CPROVER_assigns(successful_reserve, *v, self->reserved_src, g_qh, g_adds, g_last_added, g_pop_k, g_ask_k, g_gave_k, g_flip_k, g_add_k, g_succ, g_giver, g_given) \
+  __CPROVER_loop_invariant(g_qh <= g_n && g_adds == 0 && g_succ == 0 && successful_reserve == false && (g_k < g_qh ? K_FAILED : K_UNTOUCHED) \
+     && self->reserved_src == (g_qh == 0 ? g_rs0 : NULL)) __CPROVER_decreases(g_n - g_qh)
+#include "pred_cache.inc"
+static void pc_init(struct pcache *c) {
+    g_n = nondet_size_t(); g_k = nondet_size_t(); __CPROVER_assume(g_n >= 1 && g_n <= ((size_t)1 << 12) && g_k < g_n);
+    g_preds = malloc(g_n * sizeof(predecessor_type)); __CPROVER_assume(g_preds != NULL);
+    g_qh = g_adds = 0; g_last_added = NULL; g_pop_k = g_ask_k = g_gave_k = g_flip_k = g_add_k = g_succ = g_giver = 0; g_rel_calls = g_con_calls = 0; g_rel_on = NULL;
+    c->reserved_src = NULL;
+}
+static void pull_post(bool ok, item_type v) {
+    OBLIGATION(g_succ <= 1 && ok == (g_succ == 1), "C14.pull: at most one predecessor hands over an item per request, and the request succeeds iff one did");
+    OBLIGATION(!ok || v == g_given, "C14.pull: the item handed on is the one the predecessor gave (exactly once)");
+    OBLIGATION(g_ask_k <= 1, "C14.pull: a predecessor is asked at most once per request");
+    if (ok) OBLIGATION(g_giver < g_n && (g_k < g_giver ? K_FAILED : g_k == g_giver ? K_GAVE : K_UNTOUCHED),
+                       "C14.pull: predecessors are asked in turn: each one that had nothing is dropped from the cache and its edge flipped back to push mode exactly once; the one that gave the item is kept (put back once); nobody behind it is touched");
+    else OBLIGATION(K_FAILED, "C14.pull: the request fails only after every cached predecessor was asked, had nothing and was flipped back to push mode exactly once");
+}
+void h_pc_get(void) {
+    struct pcache c; pc_init(&c); item_type v = 0;
+    bool ok = pc_get_item_impl(&c, &v);
+    pull_post(ok, v);
+    VACUITY_END();
+}
+void h_rc_reserve(void) {
+    struct pcache c; pc_init(&c); item_type v = 0;
+    if (nondet_bool()) { size_t r = nondet_size_t(); __CPROVER_assume(r < g_n); c.reserved_src = &g_preds[r]; }
+    g_rs0 = c.reserved_src;
+    bool ok = rc_try_reserve_impl(&c, &v);
+    if (g_rs0 != NULL) {
+        OBLIGATION(!ok && c.reserved_src == g_rs0 && g_qh == 0 && K_UNTOUCHED && g_succ == 0, "C14.pull: while a reservation is open a second try_reserve fails and touches nothing");
+    } else {
+        pull_post(ok, v);
+        OBLIGATION(ok ? (c.reserved_src == &g_preds[g_giver]) : c.reserved_src == NULL, "C14.pull: after a granted reservation the granting predecessor is the recorded source; after a failed one no source is recorded");
+    }
+    VACUITY_END();
+}
+void h_rc_release_consume(void) {
+    struct pcache c; pc_init(&c); size_t r = nondet_size_t(); __CPROVER_assume(r < g_n); c.reserved_src = &g_preds[r];   /* the caller holds a reservation */
+    bool rel = nondet_bool();
+    if (rel) rc_try_release(&c); else rc_try_consume(&c);
+    OBLIGATION(g_rel_calls == (rel ? 1 : 0) && g_con_calls == (rel ? 0 : 1) && g_rel_on == &g_preds[r], "C14.pull: release / consume is forwarded exactly once, to the predecessor that granted the reservation");
+    OBLIGATION(c.reserved_src == NULL, "C14.pull: release / consume closes the reservation");
+    VACUITY_END();
+}
+#endif
+#ifdef WT
+/* every graph task holds one reference on the graph's wait tree from construction until after it is destroyed; reserve_wait / release_wait are one reference each */
+typedef struct vertex { int d; } vertex;
+typedef struct graph { vertex my_wait_context_vertex; } graph;
+typedef struct graph_task { graph *my_graph; int priority; vertex *my_reference_vertex; } graph_task;
+static graph_task T_enq, T_next;
+#define SUCCESSFULLY_ENQUEUED (&T_enq)
+static vertex V_thread;                 /* the calling thread's reference vertex for this graph's wait context */
+bool g_in_arena; size_t g_res, g_rel, g_destroyed, g_tlv_calls; vertex *g_res_on, *g_rel_on, *g_tlv_parent; bool g_rel_after_destroy;
+static vertex *GRAPH_wait_vertex(graph *g) { return &g->my_wait_context_vertex; }
+static bool STUB_is_this_thread_in_graph_arena(graph *g) { return g_in_arena; }
+static vertex *STUB_get_thread_reference_vertex(vertex *top) { g_tlv_calls++; g_tlv_parent = top; return &V_thread; }
+static void VERTEX_reserve(vertex *v) { g_res++; g_res_on = v; }
+static void VERTEX_release(vertex *v) { g_rel++; g_rel_on = v; g_rel_after_destroy = g_destroyed == 1; }
+static void STUB_destruct_and_deallocate(graph_task *t) { g_destroyed++; t->my_reference_vertex = NULL; t->my_graph = NULL; }   /* the object is gone: its fields are dead */
+static graph_task *NODE_forward_task(graph_task *self) { OBLIGATION(g_destroyed == 0 && g_rel == 0, "C14.wait: the task's body runs while the task still holds its reference"); if (nondet_bool()) return NULL; return nondet_bool() ? SUCCESSFULLY_ENQUEUED : &T_next; }
+static graph_task *STUB_prioritize_task(graph_task *t) { return t; }
+#include "graph_wait.inc"
+void h_task_life(void) {
+    graph g; graph_task t; g_in_arena = nondet_bool(); g_res = g_rel = g_destroyed = g_tlv_calls = 0; g_res_on = g_rel_on = g_tlv_parent = NULL; g_rel_after_destroy = false;
+    graph_task_ctor(&t, &g, nondet_int());
+    OBLIGATION(g_res == 1 && g_rel == 0 && g_res_on == t.my_reference_vertex, "C14.wait: constructing a graph task takes exactly one reference, on the vertex the task remembers");
+    OBLIGATION(g_res_on == &g.my_wait_context_vertex || (g_res_on == &V_thread && g_tlv_calls >= 1 && g_tlv_parent == &g.my_wait_context_vertex),
+               "C14.wait: the reference is taken on this graph's wait vertex, directly or through the calling thread's reference vertex whose parent is this graph's wait vertex");
+    vertex *held = g_res_on;
+    graph_task *next;
+    if (nondet_bool()) next = fwd_task_execute(&t); else { next = fwd_task_cancel(&t); OBLIGATION(next == NULL, "C14.wait: a cancelled forward task starts nothing"); }
+    OBLIGATION(g_rel == 1 && g_rel_on == held && g_res == 1, "C14.wait: executing or cancelling the task gives back exactly the one reference it took, on the same vertex");
+    OBLIGATION(g_destroyed == 1 && g_rel_after_destroy, "C14.wait: the reference is given back only after the task object is destroyed (nothing of the task is live once wait_for_all may return)");
+    OBLIGATION(next != SUCCESSFULLY_ENQUEUED, "C14.wait: the SUCCESSFULLY_ENQUEUED sentinel is never handed to the scheduler as the next task");
+    VACUITY_END();
+}
+void h_reserve_release_wait(void) {
+    graph g; g_res = g_rel = 0; g_res_on = g_rel_on = NULL;
+    if (nondet_bool()) { graph_reserve_wait(&g); OBLIGATION(g_res == 1 && g_rel == 0 && g_res_on == &g.my_wait_context_vertex, "C14.wait: reserve_wait takes exactly one reference on the graph's wait vertex"); }
+    else { graph_release_wait(&g); OBLIGATION(g_rel == 1 && g_res == 0 && g_rel_on == &g.my_wait_context_vertex, "C14.wait: release_wait gives back exactly one reference on the graph's wait vertex"); }
+    VACUITY_END();
+}
+#endif
+#ifdef RV
+/* reference_vertex (the per-thread child of the graph's wait vertex): rely/guarantee on m_ref_count.
+   Ghost census: R = references (units) whose reserve() has completed and that are not yet released; UA = units added by a reserve() that saw 0 and has not
+   yet reserved the parent (A = number of such calls); B = release() calls that brought the count to 0 and have not yet released the parent;
+   P = references this vertex holds on its parent = completed PARENT_reserve - completed PARENT_release.
+   INV: count == R + UA, A <= 1 (only the owning thread reserves), A == 1 => R == 0 and UA >= 1, A == 0 => UA == 0, P + A - B == (count > 0), and therefore
+   R > 0 => P >= 1 : while a completed child reference is outstanding the parent (the graph's wait context) cannot drop to zero on this vertex's account. */
+typedef struct wtv { int d; } wait_tree_vertex_interface;
+#define LIM ((uint64_t)1 << 62)
+uint64_t R, UA, A_o, B_o, P; int my_a, my_b; uint64_t my_ua, my_units; bool i_am_owner;
+#define A_ (A_o + (uint64_t)my_a)
+#define B_ (B_o + (uint64_t)my_b)
+#define INV(c) ((c) == R + UA && (c) < LIM && R < LIM && UA < LIM && B_o < LIM && P < LIM && A_ <= 1 && (A_ == 1 ? (R == 0 && UA >= 1) : UA == 0) && P + A_ == B_ + ((c) > 0 ? 1 : 0) && (R == 0 || P >= 1))
+#include "refvertex_struct.inc"
+static struct refv *SELF;
+static void interfere(void) {
+    /* any number of steps of other threads: everything shared is havocked, constrained by the invariant and by what this thread still contributes */
+    SELF->m_ref_count = nondet_u64(); R = nondet_u64(); UA = nondet_u64(); A_o = nondet_u64(); B_o = nondet_u64(); P = nondet_u64();
+    __CPROVER_assume(INV(SELF->m_ref_count));
+    __CPROVER_assume(R >= my_units);                          /* the units this thread holds are still counted */
+    __CPROVER_assume(my_a == 0 || UA == my_ua);               /* my in-flight units are the in-flight units (A <= 1) */
+    if (i_am_owner) __CPROVER_assume(A_o == 0);               /* rely: only the owning thread calls reserve() on its reference vertex */
+}
+#define ATOMIC_FETCH_ADD_AT(site, f, d) ({ interfere(); uint64_t old_ = (f); __CPROVER_assume(old_ + (d) < LIM && R + (d) < LIM && UA + (d) < LIM); /* stated bound: counters stay below 2^62 */ (f) = old_ + (d); GHOST_##site(old_, d); __CPROVER_assert(INV(f), "C14.wait guarantee: the census invariant of the reference vertex holds after " #site); old_; })
+#define ATOMIC_FETCH_SUB_AT(site, f, d) ({ interfere(); uint64_t old_ = (f); (f) = old_ - (d); GHOST_##site(old_, d); __CPROVER_assert(INV(f), "C14.wait guarantee: the census invariant of the reference vertex holds after " #site); old_; })
+#define GHOST_reserve_FETCH_ADD_1(old, d) do { if ((old) == 0) { my_a = 1; my_ua = (d); UA += (d); } else { R += (d); my_units += (d); } } while (0)
+#define GHOST_release_FETCH_SUB_1(old, d) do { R -= (d); my_units -= (d); if ((old) - (d) == 0) my_b = 1; } while (0)
+size_t g_pres, g_prel;
+static void PARENT_reserve(wait_tree_vertex_interface *p) {
+    interfere(); g_pres++;
+    OBLIGATION(my_a == 1, "C14.wait: the parent is reserved only by the reserve() call that found the child count at zero");
+    __CPROVER_assume(P + 1 < LIM && R + my_ua < LIM); P++; my_a = 0; UA -= my_ua; R += my_ua; my_units += my_ua; my_ua = 0;
+    __CPROVER_assert(INV(SELF->m_ref_count), "C14.wait guarantee: the census invariant holds after the parent was reserved");
+}
+static void PARENT_release(wait_tree_vertex_interface *p) {
+    interfere(); g_prel++;
+    OBLIGATION(my_b == 1, "C14.wait: the parent is released only by the release() call that brought the child count to zero");
+    OBLIGATION(P >= 1, "C14.wait: the parent is never released more often than it was reserved");
+    P--; my_b = 0;
+    __CPROVER_assert(INV(SELF->m_ref_count), "C14.wait guarantee: the census invariant holds after the parent was released");
+}
+#include "refvertex.inc"
+static void rv_init(struct refv *v) { static wait_tree_vertex_interface parent; SELF = v; v->my_parent = &parent; my_a = my_b = 0; my_ua = 0; g_pres = g_prel = 0; my_units = nondet_u64(); __CPROVER_assume(my_units < LIM); }
+void h_refv_reserve(void) {
+    struct refv v; rv_init(&v); i_am_owner = true; uint32_t delta = nondet_u32(); __CPROVER_assume(delta >= 1);
+    uint64_t u0 = my_units;
+    refv_reserve(&v, delta);
+    interfere();
+    OBLIGATION(my_a == 0 && my_units == u0 + delta, "C14.wait: when reserve() returns the new references are fully counted");
+    OBLIGATION(P >= 1, "C14.wait: once reserve() has returned, and for as long as the reference is held, the vertex holds a reference on its parent (the graph's wait context cannot reach zero)");
+    OBLIGATION(g_pres <= 1 && g_prel == 0, "C14.wait: reserve() reserves the parent at most once and never releases it");
+    VACUITY_END();
+}
+void h_refv_release(void) {
+    struct refv v; rv_init(&v); i_am_owner = nondet_bool(); uint32_t delta = nondet_u32(); __CPROVER_assume(delta >= 1 && delta <= my_units);   /* the caller gives back references it holds */
+    uint64_t u0 = my_units;
+    refv_release(&v, delta);
+    interfere();
+    OBLIGATION(my_b == 0 && my_units == u0 - delta, "C14.wait: when release() returns exactly the given references are gone and a parent release it owed has been made");
+    OBLIGATION(g_prel <= 1 && g_pres == 0, "C14.wait: release() releases the parent at most once and never reserves it");
+    OBLIGATION(my_units == 0 || P >= 1, "C14.wait: while this thread still holds references of the vertex the parent stays reserved");
     VACUITY_END();
 }
 #endif
